@@ -3,18 +3,23 @@
 // Contracts for package ops, used by /verif (govc). Comment-only; compiled only under -tags verif.
 package ops
 
+// C03 (certificates are issued for the key the signer holds now): the public key of a key version is asked of the signer
+// on every call - nothing is remembered between calls, so a key regenerated under the same name is seen.
 //@ func RsaPublicKey
-//@   assigns nothing
+//@   assigns[C03] nothing
 //@   modifies signerCalls
 //@   ensures err == nil ==> result != nil
+//@   ensures[C03] err == nil ==> signerCalls == old(signerCalls) + 1
 
 //@ func IssuerCertFromBundle
 //@   assigns nothing
 //@   modifies caCalls, bundleKeyArg, lastBundle, lastBundleOK
 //@   ensures err == nil ==> result != nil
 
+// C12: issuing a certificate leaves the request - in particular the template's validity window - as the caller built it.
 //@ func CreateCertificateFromTemplate
-//@   assigns nothing
+//@   requires req != nil && req.Template != nil
+//@   assigns[C12] nothing
 //@   modifies signerCalls, sigKey, sigDigest, lastSig
 //@   ensures err == nil ==> result != nil
 
